@@ -99,6 +99,16 @@ def env_name(owner, dest):
     return None
 
 
+# documented meaning of the raw value per way of setting an option (README "Command line interface" / "Configuration file");
+# everything backend-specific is a Python-literal-or-text on the command line, in the environment and in the file alike
+DOCUMENTED_FLAG_KIND = {'-r': 'repository', '-c': 'natural', '--cache-directory': 'path', '-K': 'filebytes', '-p': 'textbytes',
+                        '-P': 'filebytes', '--config': 'path', '--profile': 'text'}
+DOCUMENTED_KEY_KIND = {'repository': 'repository', 'concurrent': 'natural', 'hide-progress': 'boolean', 'cache-directory': 'path',
+                       'no-cache': 'null-if-true', 'password': 'textbytes', 'password-file': 'filebytes', 'key': 'textbytes',
+                       'key-file': 'filebytes', 'log-level': 'loglevel'}
+DOCUMENTED_ENV_KIND = {'REPLICAT_REPOSITORY': 'repository', 'REPLICAT_PASSWORD': 'textbytes'}
+
+
 class Setting:
     """one way an option is set at one level: `kind` as above, or 'const' (flag without value) with `value`,
     or 'null-if-true' (the `no-cache` key)"""
